@@ -28,6 +28,7 @@ def run_history(ctx, r, n_cmds, weights, oracle, legacy=None, prelude=None, gen_
     trace = [{"store": "legacy log name events.jsonl"}] if legacy else []
     try:
         pre = None
+        diverged = False
         for i in range(n_cmds):
             req, agent = (gen_fn or gen.gen_request)(r, v, weights)
             req = cmdrun.classify_raw(ctx.go, req)
@@ -36,12 +37,19 @@ def run_history(ctx, r, n_cmds, weights, oracle, legacy=None, prelude=None, gen_
                     "exit": rec["exit"]}
             trace.append(step)
             ctx.count(1, key=(req["cmd"], rec["errclass"] or "ok", mode_of(req), fieldset(req)))
-            if rec["diff"]:
-                ctx.tie_broken("T2-cmd", {"diff": rec["diff"], "trace": trace, "stderr": rec["stderr"][:300]})
-                # keep looking for a concrete failing input with the oracle on this very step
-                if "err" not in rec["pre"] and "err" not in rec["post"]:
-                    oracle(ctx, st, req, agent, rec, trace)
-                return trace
+            if rec["diff"] and not diverged:
+                ctx.tie_broken("T2-cmd", {"diff": rec["diff"], "trace": list(trace), "stderr": rec["stderr"][:300]})
+                diverged = True
+            if diverged:
+                # model and implementation disagree from here on: keep looking for a concrete failing input with the property's oracle
+                # alone, on this step and on the rest of the history (the generator now follows the real store)
+                if "err" in rec["pre"] or "err" in rec["post"]:
+                    return trace
+                if oracle(ctx, st, req, agent, rec, trace):
+                    return trace
+                v.update(rec["post"]["graph"])
+                pre = rec["post"]
+                continue
             if oracle(ctx, st, req, agent, rec, trace):
                 return trace
             v.update(rec.get("model_post"))
